@@ -3,72 +3,93 @@ From SQ Require Import lib.Base gen.Gen_C12.
 From SQ Require Import model.CloseSender.
 Local Open Scope N_scope.
 
-(* copies sent + the one allowed now + the one a running debounce timer will allow
-   never exceed 1 + datagrams received *)
-Definition budget (s : cs) : N :=
-  (if (c_st s =? 1) && c_tx s then 1 else 0) + (match c_deb s with Some _ => 1 | None => 0 end).
-Definition Inv (s : cs) (sent recv : N) : Prop := sent + budget s <= 1 + recv.
+(* between events the sender has nothing ready to send (the opportunity after each event was used),
+   and a running debounce timer was armed by a datagram received since the last copy *)
+Definition Inv (s : cs) (fresh : bool) : Prop :=
+  (c_st s =? 1) && c_tx s = false /\ (forall d, c_deb s = Some d -> fresh = true).
 
-Lemma inv_timeout : forall s now sent recv, Inv s sent recv -> Inv (snd (cs_timeout s now)) sent recv.
+Lemma transmit_idle : forall s, (c_st s =? 1) && c_tx s = false -> cs_transmit s = (false, s).
+Proof. intros s H. unfold cs_transmit. rewrite H. reflexivity. Qed.
+
+Lemma transmit_sends : forall s, (c_st s =? 1) && c_tx s = true ->
+  cs_transmit s = (true, mk_cs 1 false (c_close s) (c_factor s) (c_recv s) (c_deb s)).
+Proof. intros s H. unfold cs_transmit. rewrite H. reflexivity. Qed.
+
+(* timeout, then the opportunity: a copy is only sent when the debounce timer expired, and that timer
+   had been armed by a datagram received since the previous copy *)
+Lemma step_timeout : forall s now fresh b s1 t s2, Inv s fresh ->
+  cs_timeout s now = (b, s1) -> cs_transmit s1 = (t, s2) ->
+  (t = true -> fresh = true) /\ Inv s2 (if t then false else fresh).
 Proof.
-  intros s now sent recv H. unfold cs_timeout, Inv, budget in *.
-  destruct (c_st s =? 2) eqn:E2; [exact H|].
+  intros s now fresh b s1 t s2 [H1 H2] Ht Hx. unfold cs_timeout in Ht.
+  destruct (c_st s =? 2) eqn:E2.
+  { injection Ht as <- <-. rewrite transmit_idle in Hx by exact H1. injection Hx as <- <-.
+    split; [discriminate|split; assumption]. }
   destruct (c_close s <=? now).
-  - cbn [snd c_st c_tx c_deb]. rewrite andb_false_r. destruct (c_deb s); destruct ((c_st s =? 1) && c_tx s); lia.
-  - destruct (c_deb s) as [d|] eqn:Ed.
-    + destruct (d <=? now); cbn [snd c_st c_tx c_deb]; [|rewrite Ed; exact H].
-      change (1 =? 1) with true. cbn [andb]. destruct ((c_st s =? 1) && c_tx s); lia.
-    + cbn [snd]. rewrite Ed. exact H.
+  { injection Ht as <- <-. cbn in Hx. unfold cs_transmit in Hx. cbn in Hx. change (2 =? 1) with false in Hx. cbn in Hx.
+    injection Hx as <- <-. split; [discriminate|]. split; [reflexivity|]. cbn. exact H2. }
+  destruct (c_deb s) as [d|] eqn:Ed.
+  - destruct (d <=? now).
+    + injection Ht as <- <-. rewrite transmit_sends in Hx by reflexivity. injection Hx as <- <-.
+      split; [intros _; eapply H2; reflexivity|]. split; [reflexivity|]. cbn. intros d0 Hd. discriminate.
+    + injection Ht as <- <-. rewrite transmit_idle in Hx by exact H1. injection Hx as <- <-.
+      split; [discriminate|]. split; [exact H1|]. intros d0 Hd. exact (H2 d eq_refl).
+  - injection Ht as <- <-. rewrite transmit_idle in Hx by exact H1. injection Hx as <- <-.
+    split; [discriminate|]. split; [exact H1|]. intros d0 Hd. congruence.
 Qed.
 
-Lemma inv_datagram : forall s rtt now sent recv, Inv s sent recv -> Inv (cs_datagram s rtt now) sent (recv + 1).
+Lemma step_datagram : forall s rtt now fresh t s2, Inv s fresh ->
+  cs_transmit (cs_datagram s rtt now) = (t, s2) -> t = false /\ Inv s2 true.
 Proof.
-  intros s rtt now sent recv H. unfold cs_datagram, Inv, budget in *.
-  destruct (c_st s =? 1) eqn:E1; cbn [negb]; [|rewrite E1; lia].
-  cbn [andb] in H.
-  destruct (c_deb s) as [d|] eqn:Ed; [rewrite E1, Ed; cbn [andb]; lia|].
-  destruct (c_factor s <=? sat8 (c_recv s + 1)); cbn [c_st c_tx c_deb]; change (1 =? 1) with true; cbn [andb];
-    destruct (c_tx s); lia.
+  intros s rtt now fresh t s2 [H1 H2] Hx.
+  assert (Hidle : (c_st (cs_datagram s rtt now) =? 1) && c_tx (cs_datagram s rtt now) = false).
+  { unfold cs_datagram. destruct (c_st s =? 1) eqn:E1; cbn [negb]; [|rewrite E1; reflexivity].
+    cbn [andb] in H1. destruct (c_deb s); [rewrite E1; exact H1|].
+    destruct (c_factor s <=? sat8 (c_recv s + 1)); cbn; change (1 =? 1) with true; exact H1. }
+  rewrite transmit_idle in Hx by exact Hidle. injection Hx as <- <-.
+  split; [reflexivity|]. split; [exact Hidle|]. intros; reflexivity.
 Qed.
 
-Lemma inv_transmit : forall s s' sent recv, Inv s sent recv ->
-  (cs_transmit s = (true, s') -> sent + 1 <= 1 + recv /\ Inv s' (sent + 1) recv) /\
-  (cs_transmit s = (false, s') -> Inv s' sent recv).
+Lemma step_opportunity : forall s fresh t s2, Inv s fresh -> cs_transmit s = (t, s2) -> t = false /\ Inv s2 fresh.
 Proof.
-  intros s s' sent recv H. unfold cs_transmit, Inv, budget in *.
-  destruct ((c_st s =? 1) && c_tx s) eqn:E; split; intros Ht; try discriminate; injection Ht as <-.
-  - cbn [c_st c_tx c_deb]. change (1 =? 1) with true. cbn [andb]. destruct (c_deb s); lia.
-  - rewrite E. exact H.
+  intros s fresh t s2 [H1 H2] Hx. rewrite transmit_idle in Hx by exact H1. injection Hx as <- <-.
+  split; [reflexivity|split; assumption].
 Qed.
 
-Lemma walk_run : forall fuel rtt now s sent recv ops, Inv s sent recv ->
-  walk fuel sent recv ops (run_ops fuel rtt now s ops) = true.
+Lemma walk_run : forall fuel rtt now s sent fresh ops, Inv s fresh ->
+  walk fuel sent fresh ops (run_ops fuel rtt now s ops) = true.
 Proof.
-  induction fuel as [|fuel IH]; intros rtt now s sent recv ops H; [reflexivity|].
+  induction fuel as [|fuel IH]; intros rtt now s sent fresh ops H; [reflexivity|].
   destruct ops as [|op r]; [reflexivity|].
   destruct op as [|p|p]; try reflexivity.
   destruct p as [[p|p|]|[p|p|]|]; try reflexivity.
   - (* 3 *)
-    cbn [run_ops walk]. destruct (cs_transmit s) as [b s'] eqn:Et.
-    destruct (inv_transmit s s' sent recv H) as [H1 H2]. destruct b; cbn [bz app].
-    + destruct (H1 Et) as [Hle Hi]. replace (sent + 1 <=? 1 + recv) with true by (symmetry; apply N.leb_le; lia).
-      apply IH; assumption.
-    + apply IH. apply H2. exact Et.
+    cbn [run_ops walk]. destruct (cs_transmit s) as [t s2] eqn:Et.
+    destruct (step_opportunity _ _ _ _ H Et) as [-> HI]. cbn [bz app copy_ok]. apply IH; assumption.
   - (* 2 *)
-    cbn [run_ops walk]. apply IH. apply inv_datagram; assumption.
+    cbn [run_ops walk]. destruct (cs_transmit (cs_datagram s rtt now)) as [t s2] eqn:Et.
+    destruct (step_datagram _ _ _ _ _ _ H Et) as [-> HI]. cbn [bz app copy_ok]. apply IH; assumption.
   - (* 1 *)
     cbn [run_ops walk]. destruct (nx r) as [a r1].
-    destruct (cs_timeout s (now + zN a mod 10000)) as [b s'] eqn:Et. cbn [app].
-    apply IH. pose proof (inv_timeout s (now + zN a mod 10000) sent recv H) as Hi. rewrite Et in Hi. exact Hi.
+    destruct (cs_timeout s (now + zN a mod 10000)) as [b s1] eqn:Eo.
+    destruct (cs_transmit s1) as [t s2] eqn:Et.
+    destruct (step_timeout _ _ _ _ _ _ _ H Eo Et) as [Hf HI]. cbn [app].
+    destruct t; cbn [bz copy_ok].
+    + rewrite (Hf eq_refl). rewrite orb_true_r. apply IH; assumption.
+    + apply IH; assumption.
 Qed.
 
 Theorem judge_run : forall case, judge case (run case) = true.
 Proof.
   intros case. unfold judge, run. destruct (nx case) as [a r0]. destruct (nx r0) as [b r1]. destruct (nx r1) as [c r2].
-  apply walk_run. unfold Inv, budget, cs_close. cbn [c_st c_tx c_deb]. change (1 =? 1) with true. cbn [andb]. lia.
+  rewrite transmit_sends by reflexivity. cbn [bz app copy_ok negb orb].
+  apply walk_run. split; [reflexivity|]. cbn. intros d Hd. discriminate.
 Qed.
 
-(* what the judgement means: in any accepted output the number of close packets reported sent
-   never exceeds 1 + the number of datagram operations before it - stated on the model's trace *)
-Theorem close_rate_limited : forall s sent recv, Inv s sent recv -> sent <= 1 + recv.
-Proof. intros s sent recv H. unfold Inv in H. lia. Qed.
+(* what the judgement means for one reported copy: it is the first one, or a datagram was received
+   since the previous copy *)
+Theorem copy_in_response : forall sent fresh s' f', copy_ok sent fresh 1%Z = Some (s', f') ->
+  (sent = false \/ fresh = true) /\ s' = true /\ f' = false.
+Proof.
+  intros sent fresh s' f' H. cbn in H. destruct sent, fresh; cbn in H; try discriminate; injection H as <- <-; auto.
+Qed.
